@@ -332,6 +332,7 @@ func c04(c *Ctx) {
 		r.Check(gr.thenField == pr.thenField && gr.elseField == pr.elseField && gr.thenField != gr.elseField, "R5.routing", name+" backends", p.Pos(g.Pos()),
 			fmt.Sprintf("true→%s false→%s in both", gr.thenField, gr.elseField), fmt.Sprintf("Get routes true→%s/false→%s but Put true→%s/false→%s", gr.thenField, gr.elseField, pr.thenField, pr.elseField))
 	}
+	errorsExamined(c, "R5.errors-examined", "content store", []string{"storage/pebble"}, "(*storage/pebble.ContentStorage).", "storage/pebble.NewStorage")
 }
 
 type route struct{ pred, thenField, elseField string }
